@@ -6,7 +6,7 @@ from src.compilers.base import BaseCompiler
 
 class GroovyCompiler(BaseCompiler):
     # Match (example.groovy):(error message until empty line)
-    ERROR_REGEX = re.compile(r'([a-zA-Z0-9\\/_]+.groovy):([\s\S]*?(?=\n{2,}))')
+    ERROR_REGEX = re.compile(r'([^\s:]+.groovy):([\s\S]*?(?=\n{2,}))')
 
     CRASH_REGEX = re.compile(r'(at org.codehaus.groovy)(.*)')
 
